@@ -274,4 +274,383 @@ theorem choiceImmediate_one (cfg : Cfg) (f : Nat) (cls : List Clause) :
               · right; right; exact ⟨c, x, rfl, h.2.symm⟩
               · intro c' hc'; rw [← h.1]; exact (hoth c' hc').1 w1 (some x) hp
 
+/-! ### conservation: what a channel hands out is what was pushed into it -/
+
+/-- the values logged for channel `c` -/
+def onChan (l : List (Nat × Nat)) (c : Nat) : List Nat := (l.filter (fun p => p.1 == c)).map (·.2)
+
+theorem onChan_snoc (l : List (Nat × Nat)) (c x c' : Nat) :
+    onChan (l ++ [(c, x)]) c' = if c = c' then onChan l c' ++ [x] else onChan l c' := by
+  unfold onChan
+  by_cases h : c = c'
+  · subst h; simp [List.filter_append]
+  · simp [List.filter_append, h]
+
+/-- per channel and per value: pushed = handed out + still queued -/
+def Conserved (w : World) : Prop :=
+  ∀ c x, (onChan w.ghost.pushed c).count x = (onChan w.ghost.handed c).count x + (w.chans c).items.count x
+
+theorem Conserved.congr {w w' : World} (hp : w'.ghost.pushed = w.ghost.pushed) (hh : w'.ghost.handed = w.ghost.handed)
+    (hi : ∀ c, (w'.chans c).items = (w.chans c).items) (h : Conserved w) : Conserved w' := by
+  intro c x; rw [hp, hh, hi]; exact h c x
+
+theorem chanPush_effect (cfg : Cfg) (w : World) (f c x mode : Nat) (w' : World) (b : Bool)
+    (h : chanPush cfg w f c x mode = .ok w' b) :
+    w'.ghost.pushed = w.ghost.pushed ++ [(c, x)] ∧
+    ((w'.ghost.handed = w.ghost.handed ∧ (w'.chans c).items = (w.chans c).items ++ [x]) ∨
+     (w'.ghost.handed = w.ghost.handed ++ [(c, x)] ∧ (w'.chans c).items = (w.chans c).items)) := by
+  unfold chanPush at h
+  by_cases hcl : (w.chans c).closed = true
+  · simp [hcl] at h
+  · simp only [hcl] at h
+    simp only [addPushed] at h
+    rcases hq : popLiveReader w.fibers (w.chans c).readPending with ⟨r, rp⟩
+    rw [hq] at h
+    cases r with
+    | none =>
+      simp only [] at h
+      by_cases hb : pushBlocks cfg ((w.chans c).items.length + 1) (w.chans c).limit = true
+      · by_cases hm : mode = 2
+        · simp [hb, hm] at h; rw [← h.1]; simp [setChan]
+        · simp [hb, hm] at h; rw [← h.1]; simp [setChan]
+      · simp [hb] at h; rw [← h.1]; simp [setChan]
+    | some r =>
+      simp at h
+      rw [← h.1, schedule_ghost, schedule_chans]; simp [addHanded, setChan]
+
+theorem chanPush_conserved (cfg : Cfg) (w : World) (f c x mode : Nat) (w' : World) (b : Bool)
+    (h : chanPush cfg w f c x mode = .ok w' b) (hc : Conserved w) : Conserved w' := by
+  obtain ⟨hp, he⟩ := chanPush_effect cfg w f c x mode w' b h
+  intro c' x'
+  have hw := hc c' x'
+  by_cases hcc : c = c'
+  · subst hcc
+    rcases he with ⟨hh, hi⟩ | ⟨hh, hi⟩
+    · rw [hp, hh, hi, onChan_snoc]; simp [List.count_append]; omega
+    · rw [hp, hh, hi, onChan_snoc, onChan_snoc]; simp [List.count_append]; omega
+  · have hoth := chanPush_other cfg w f c x mode w' b h c' (fun e => hcc e.symm)
+    rcases he with ⟨hh, _⟩ | ⟨hh, _⟩
+    · rw [hp, hh, hoth, onChan_snoc]; simp [hcc]; exact hw
+    · rw [hp, hh, hoth, onChan_snoc, onChan_snoc]; simp [hcc]; exact hw
+
+theorem chanPop_effect (cfg : Cfg) (w : World) (f c mode : Nat) :
+    (∀ w' r, chanPop cfg w f c mode = .got w' r → w'.ghost.pushed = w.ghost.pushed ∧
+      ((r = none ∧ w'.ghost.handed = w.ghost.handed ∧ (w'.chans c).items = (w.chans c).items) ∨
+       (∃ x rest, (w.chans c).items = x :: rest ∧ r = some x ∧ w'.ghost.handed = w.ghost.handed ++ [(c, x)] ∧
+          (w'.chans c).items = rest))) ∧
+    (∀ w', chanPop cfg w f c mode = .blocked w' → w'.ghost.pushed = w.ghost.pushed ∧
+      w'.ghost.handed = w.ghost.handed ∧ (w'.chans c).items = (w.chans c).items) := by
+  unfold chanPop
+  by_cases hcl : (w.chans c).closed = true
+  · simp [hcl]
+  · simp only [hcl]
+    cases hi : (w.chans c).items with
+    | nil =>
+      by_cases hm : mode = 2
+      · simp [hm, hi]
+      · simp [hm]; simp [setChan]
+    | cons x rest =>
+      simp only []
+      rcases hq : popWriter cfg.popSkipsStaleWriter (addHanded w c x).fibers (w.chans c).writePending with ⟨wr, wp⟩
+      cases wr with
+      | none => simp; exact ⟨by simp [setChan, addHanded], x, rest, ⟨rfl, rfl⟩, rfl, by simp [setChan, addHanded], by simp [setChan]⟩
+      | some p =>
+        simp; rw [schedule_ghost, schedule_chans]
+        exact ⟨by simp [setChan, addHanded], x, rest, ⟨rfl, rfl⟩, rfl, by simp [setChan, addHanded], by simp [setChan]⟩
+
+theorem chanPop_conserved (cfg : Cfg) (w : World) (f c mode : Nat) (hc : Conserved w) :
+    (∀ w' r, chanPop cfg w f c mode = .got w' r → Conserved w') ∧
+    (∀ w', chanPop cfg w f c mode = .blocked w' → Conserved w') := by
+  have he := chanPop_effect cfg w f c mode
+  constructor
+  · intro w' r h
+    obtain ⟨hp, hcase⟩ := he.1 w' r h
+    intro c' x'
+    have hw := hc c' x'
+    by_cases hcc : c = c'
+    · subst hcc
+      rcases hcase with ⟨_, hh, hi⟩ | ⟨x, rest, hitems, _, hh, hi⟩
+      · rw [hp, hh, hi]; exact hw
+      · rw [hp, hh, hi, onChan_snoc]; rw [hitems] at hw
+        simp [List.count_append, List.count_cons] at hw ⊢; omega
+    · have hoth := ((chanPop_other cfg w f c mode c' (fun e => hcc e.symm)).1 w' r h)
+      rcases hcase with ⟨_, hh, _⟩ | ⟨x, rest, _, _, hh, _⟩
+      · rw [hp, hh, hoth]; exact hw
+      · rw [hp, hh, hoth, onChan_snoc]; simp [hcc]; exact hw
+  · intro w' h
+    obtain ⟨hp, hh, hi⟩ := he.2 w' h
+    intro c' x'
+    by_cases hcc : c = c'
+    · subst hcc; rw [hp, hh, hi]; exact hc c x'
+    · rw [hp, hh, (chanPop_other cfg w f c mode c' (fun e => hcc e.symm)).2 w' h]; exact hc c' x'
+
+theorem choiceImmediate_conserved (cfg : Cfg) (f : Nat) (cls : List Clause) :
+    ∀ (w w' : World) (v : Val), choiceImmediate cfg w f cls = some (w', v) → Conserved w → Conserved w' := by
+  induction cls with
+  | nil => intro w w' v h; simp [choiceImmediate] at h
+  | cons cl rest ih =>
+    intro w w' v h hc
+    cases cl with
+    | give c x =>
+      unfold choiceImmediate at h
+      by_cases hcl : (w.chans c).closed = true
+      · simp [hcl] at h; rw [← h.1]; exact hc
+      · simp only [hcl] at h
+        by_cases hr : (choiceReady cfg (w.chans c).items.length (w.chans c).limit
+            || (cfg.choiceGiveSeesReader && hasLiveReader w.fibers (w.chans c).readPending)) = true
+        · simp only [hr] at h
+          cases hp : chanPush cfg w f c x 1 with
+          | closedErr => rw [hp] at h; simp at h; rw [← h.1]; exact hc
+          | ok w1 b => rw [hp] at h; simp at h; rw [← h.1]; exact chanPush_conserved cfg w f c x 1 w1 b hp hc
+        · simp only [hr] at h
+          exact ih w w' v (by simpa using h) hc
+    | take c =>
+      unfold choiceImmediate at h
+      by_cases hcl : (w.chans c).closed = true
+      · simp [hcl] at h; rw [← h.1]; exact hc
+      · simp only [hcl] at h
+        by_cases hi : (w.chans c).items = []
+        · simp [hi] at h; exact ih w w' v h hc
+        · simp [hi] at h
+          have hpc := chanPop_conserved cfg w f c 1 hc
+          cases hp : chanPop cfg w f c 1 with
+          | blocked w1 => rw [hp] at h; simp at h; rw [← h.1]; exact hpc.2 w1 hp
+          | got w1 r =>
+            rw [hp] at h
+            cases r with
+            | none => simp at h; rw [← h.1]; exact hpc.1 w1 none hp
+            | some x =>
+              simp at h; rw [← h.1]
+              exact Conserved.congr rfl rfl (fun _ => rfl) (hpc.1 w1 (some x) hp)
+
+theorem choiceRegister_conserved (cfg : Cfg) (f : Nat) (cls : List Clause) :
+    ∀ (w : World), Conserved w → Conserved (choiceRegister cfg w f cls) := by
+  induction cls with
+  | nil => intro w h; simpa [choiceRegister] using h
+  | cons cl rest ih =>
+    intro w hc
+    cases cl with
+    | give c x =>
+      unfold choiceRegister
+      cases hp : chanPush cfg w f c x 1 with
+      | closedErr => exact ih w hc
+      | ok w1 b => exact ih w1 (chanPush_conserved cfg w f c x 1 w1 b hp hc)
+    | take c =>
+      unfold choiceRegister
+      have hpc := chanPop_conserved cfg w f c 1 hc
+      cases hp : chanPop cfg w f c 1 with
+      | blocked w1 => exact ih w1 (hpc.2 w1 hp)
+      | got w1 r => exact ih w1 (hpc.1 w1 r hp)
+
+theorem closeWake_view (cfg : Cfg) (c : Nat) (b : Bool) (w : World) (p : Pending) :
+    (closeWake cfg c b w p).chans = w.chans ∧ (closeWake cfg c b w p).ghost = w.ghost := by
+  unfold closeWake
+  split
+  · exact ⟨schedule_chans _ _ _, schedule_ghost _ _ _⟩
+  · exact ⟨rfl, rfl⟩
+
+theorem closeWake_fold_view (cfg : Cfg) (c : Nat) (b : Bool) (ps : List Pending) :
+    ∀ w : World, (ps.foldl (closeWake cfg c b) w).chans = w.chans ∧ (ps.foldl (closeWake cfg c b) w).ghost = w.ghost := by
+  induction ps with
+  | nil => intro w; exact ⟨rfl, rfl⟩
+  | cons p rest ih =>
+    intro w
+    simp only [List.foldl_cons]
+    have h1 := ih (closeWake cfg c b w p)
+    have h2 := closeWake_view cfg c b w p
+    exact ⟨h1.1.trans h2.1, h1.2.trans h2.2⟩
+
+theorem chanClose_conserved (cfg : Cfg) (w : World) (c : Nat) (hc : Conserved w) : Conserved (chanClose cfg w c) := by
+  unfold chanClose
+  by_cases hcl : (w.chans c).closed = true
+  · simp [hcl]; exact hc
+  · simp only [hcl]
+    have h1 := closeWake_fold_view cfg c false (w.chans c).readPending
+      ((w.chans c).writePending.foldl (closeWake cfg c true)
+        (setChan w c { (w.chans c) with closed := true, readPending := [], writePending := [] }))
+    have h2 := closeWake_fold_view cfg c true (w.chans c).writePending
+      (setChan w c { (w.chans c) with closed := true, readPending := [], writePending := [] })
+    refine Conserved.congr ?_ ?_ ?_ hc
+    · simp only [Bool.false_eq_true, ↓reduceIte]; rw [h1.2, h2.2]; rfl
+    · simp only [Bool.false_eq_true, ↓reduceIte]; rw [h1.2, h2.2]; rfl
+    · intro c'
+      simp only [Bool.false_eq_true, ↓reduceIte]; rw [h1.1, h2.1]
+      by_cases hcc : c' = c
+      · subst hcc; simp [setChan]
+      · simp [setChan, hcc]
+
+theorem schedule_conserved (w : World) (f : Nat) (v : Val) (hc : Conserved w) : Conserved (schedule w f v) :=
+  Conserved.congr (by rw [schedule_ghost]) (by rw [schedule_ghost]) (fun c => by rw [schedule_chans]) hc
+
+theorem awaitFiber_conserved (w : World) (f : Nat) (hc : Conserved w) : Conserved (awaitFiber w f) :=
+  Conserved.congr rfl rfl (fun _ => rfl) hc
+
+theorem finishFiber_conserved (w : World) (f : Nat) (e : Bool) (hc : Conserved w) : Conserved (finishFiber w f e) :=
+  Conserved.congr rfl rfl (fun _ => rfl) hc
+
+theorem loopRunTask_conserved (w : World) (hc : Conserved w) : Conserved (loopRunTask w).1 := by
+  unfold loopRunTask
+  cases hq : w.runq with
+  | nil => exact hc
+  | cons t rest =>
+    simp only []
+    split
+    · exact Conserved.congr rfl rfl (fun _ => rfl) hc
+    · split
+      · exact Conserved.congr rfl rfl (fun _ => rfl) hc
+      · exact Conserved.congr rfl rfl (fun _ => rfl) hc
+
+theorem loopTimers_conserved (w : World) (hc : Conserved w) : Conserved (loopTimers w) := by
+  unfold loopTimers
+  have key : ∀ (ts : List Timer) (w0 : World), Conserved w0 →
+      Conserved (ts.foldl (fun w t => if (w.fibers t.fiber).sched = t.sched then schedule w t.fiber .nil else w) w0) := by
+    intro ts
+    induction ts with
+    | nil => intro w0 h; exact h
+    | cons t rest ih =>
+      intro w0 h
+      simp only [List.foldl_cons]
+      apply ih
+      split
+      · exact schedule_conserved _ _ _ h
+      · exact h
+  exact key _ _ (Conserved.congr rfl rfl (fun _ => rfl) hc)
+
+theorem step_conserved (cfg : Cfg) (w : World) (a : Action) (hc : Conserved w) : Conserved (step cfg w a).1 := by
+  unfold step
+  cases hcur : w.current with
+  | none =>
+    cases a <;> simp only [] <;> first | exact hc | exact loopRunTask_conserved w hc | exact loopTimers_conserved w hc
+  | some f =>
+    cases a with
+    | go g => exact schedule_conserved _ _ _ hc
+    | give c x =>
+      simp only []
+      cases hp : chanPush cfg w f c x 0 with
+      | closedErr => exact finishFiber_conserved _ _ _ hc
+      | ok w1 b =>
+        have := chanPush_conserved cfg w f c x 0 w1 b hp hc
+        cases b
+        · exact this
+        · exact awaitFiber_conserved _ _ this
+    | take c =>
+      simp only []
+      have hpc := chanPop_conserved cfg w f c 0 hc
+      cases hp : chanPop cfg w f c 0 with
+      | blocked w1 => exact awaitFiber_conserved _ _ (hpc.2 w1 hp)
+      | got w1 r =>
+        cases r with
+        | none => exact awaitFiber_conserved _ _ (schedule_conserved _ _ _ (hpc.1 w1 none hp))
+        | some x => exact awaitFiber_conserved _ _ (schedule_conserved _ _ _ (hpc.1 w1 (some x) hp))
+    | select cls =>
+      simp only []
+      cases hi : choiceImmediate cfg w f cls with
+      | none => exact awaitFiber_conserved _ _ (choiceRegister_conserved cfg f cls w hc)
+      | some r => exact choiceImmediate_conserved cfg f cls w r.1 r.2 hi hc
+    | close c => exact chanClose_conserved cfg w c hc
+    | sleep0 => exact awaitFiber_conserved _ _ (Conserved.congr rfl rfl (fun _ => rfl) hc)
+    | finish e => exact finishFiber_conserved _ _ _ hc
+    | runTask => exact hc
+    | timers => exact hc
+
+/-- **conservation** for every action sequence -/
+theorem run_conserved (cfg : Cfg) (as : List Action) : ∀ w : World, Conserved w → Conserved (run cfg w as) := by
+  induction as with
+  | nil => intro w h; exact h
+  | cons a rest ih =>
+    intro w h
+    unfold run
+    simp only [List.foldl_cons]
+    exact ih _ (step_conserved cfg w a h)
+
+theorem start_conserved (limits : Nat → Nat) : Conserved (World.start limits) := by
+  unfold World.start
+  apply schedule_conserved
+  intro c x
+  simp [World.init, onChan]
+
+/-! ### close wakes every waiter -/
+
+theorem closeWake_mono (cfg : Cfg) (c : Nat) (b : Bool) (w : World) (p : Pending) (g : Nat) :
+    (w.fibers g).sched ≤ ((closeWake cfg c b w p).fibers g).sched ∧
+    ((closeWake cfg c b w p).fibers g).status = (w.fibers g).status ∧
+    ((closeWake cfg c b w p).fibers g).canceled = (w.fibers g).canceled := by
+  unfold closeWake
+  split
+  · exact ⟨schedule_sched_mono _ _ _ g, (schedule_status _ _ _ g).1, (schedule_status _ _ _ g).2⟩
+  · exact ⟨Nat.le_refl _, rfl, rfl⟩
+
+theorem closeWake_fold_mono (cfg : Cfg) (c : Nat) (b : Bool) (ps : List Pending) (g : Nat) :
+    ∀ w : World, (w.fibers g).sched ≤ ((ps.foldl (closeWake cfg c b) w).fibers g).sched ∧
+      ((ps.foldl (closeWake cfg c b) w).fibers g).status = (w.fibers g).status ∧
+      ((ps.foldl (closeWake cfg c b) w).fibers g).canceled = (w.fibers g).canceled := by
+  induction ps with
+  | nil => intro w; exact ⟨Nat.le_refl _, rfl, rfl⟩
+  | cons p rest ih =>
+    intro w
+    simp only [List.foldl_cons]
+    have h1 := ih (closeWake cfg c b w p)
+    have h2 := closeWake_mono cfg c b w p g
+    exact ⟨Nat.le_trans h2.1 h1.1, h1.2.1.trans h2.2.1, h1.2.2.trans h2.2.2⟩
+
+/-- every waiter whose registration is current (and whose fiber can be resumed) is scheduled by the wake loop:
+    its sched_id is bumped, i.e. a task for it was appended -/
+theorem closeWake_fold_wakes (cfg : Cfg) (c : Nat) (b : Bool) (ps : List Pending) :
+    ∀ (w : World) (p : Pending), p ∈ ps → p.sched = (w.fibers p.fiber).sched →
+      fiberCanResume (w.fibers p.fiber) = true → (w.fibers p.fiber).canceled = false →
+      (w.fibers p.fiber).sched < ((ps.foldl (closeWake cfg c b) w).fibers p.fiber).sched := by
+  induction ps with
+  | nil => intro w p hp; simp at hp
+  | cons q rest ih =>
+    intro w p hp hl hr hcn
+    simp only [List.foldl_cons]
+    have hm := closeWake_mono cfg c b w q p.fiber
+    have hf := closeWake_fold_mono cfg c b rest p.fiber (closeWake cfg c b w q)
+    by_cases hlt : (w.fibers p.fiber).sched < ((closeWake cfg c b w q).fibers p.fiber).sched
+    · exact Nat.lt_of_lt_of_le hlt hf.1
+    · have heq : ((closeWake cfg c b w q).fibers p.fiber).sched = (w.fibers p.fiber).sched := by omega
+      rcases List.mem_cons.mp hp with hpq | hpr
+      · -- p = q is live at its turn: closeWake schedules it
+        subst hpq
+        exfalso
+        apply hlt
+        unfold closeWake
+        have hlive : p.live w.fibers = true := by simp [Pending.live, hl]
+        simp only [hlive, hr, Bool.or_true, Bool.and_self, ↓reduceIte]
+        rw [(schedule_bumps w p.fiber _ hcn).1]; omega
+      · have := ih (closeWake cfg c b w q) p hpr (by rw [heq]; exact hl)
+          (by unfold fiberCanResume at hr ⊢; rw [hm.2.1]; exact hr) (by rw [hm.2.2]; exact hcn)
+        omega
+
+/-- **close_wakes_all** (any state): closing an open channel empties both pending queues and schedules every waiter whose
+    registration is current. -/
+theorem chanClose_wakes_all (cfg : Cfg) (w : World) (c : Nat) (ho : (w.chans c).closed = false) (p : Pending)
+    (hp : p ∈ (w.chans c).writePending ∨ p ∈ (w.chans c).readPending)
+    (hl : p.sched = (w.fibers p.fiber).sched) (hr : fiberCanResume (w.fibers p.fiber) = true)
+    (hcn : (w.fibers p.fiber).canceled = false) :
+    ((chanClose cfg w c).chans c).closed = true ∧ ((chanClose cfg w c).chans c).readPending = [] ∧
+    ((chanClose cfg w c).chans c).writePending = [] ∧
+    (w.fibers p.fiber).sched < ((chanClose cfg w c).fibers p.fiber).sched := by
+  unfold chanClose
+  simp only [ho, Bool.false_eq_true, ↓reduceIte]
+  let w0 := setChan w c { (w.chans c) with closed := true, readPending := [], writePending := [] }
+  let w1 := (w.chans c).writePending.foldl (closeWake cfg c true) w0
+  have hv1 := closeWake_fold_view cfg c true (w.chans c).writePending w0
+  have hv2 := closeWake_fold_view cfg c false (w.chans c).readPending w1
+  have hch : ((w.chans c).readPending.foldl (closeWake cfg c false) w1).chans c = w0.chans c := by
+    rw [hv2.1, hv1.1]
+  refine ⟨by rw [hch]; simp [w0, setChan], by rw [hch]; simp [w0, setChan], by rw [hch]; simp [w0, setChan], ?_⟩
+  have hm1 := closeWake_fold_mono cfg c true (w.chans c).writePending p.fiber w0
+  have hm2 := closeWake_fold_mono cfg c false (w.chans c).readPending p.fiber w1
+  rcases hp with hpw | hpr
+  · have := closeWake_fold_wakes cfg c true (w.chans c).writePending w0 p hpw hl hr hcn
+    exact Nat.lt_of_lt_of_le this hm2.1
+  · by_cases hlt : (w0.fibers p.fiber).sched < (w1.fibers p.fiber).sched
+    · exact Nat.lt_of_lt_of_le hlt hm2.1
+    · have heq : (w1.fibers p.fiber).sched = (w.fibers p.fiber).sched :=
+        Nat.le_antisymm (Nat.le_of_not_lt hlt) hm1.1
+      have := closeWake_fold_wakes cfg c false (w.chans c).readPending w1 p hpr (by rw [heq]; exact hl)
+        (by unfold fiberCanResume at hr ⊢; rw [hm1.2.1]; exact hr) (by rw [hm1.2.2]; exact hcn)
+      exact heq ▸ this
+
 end JanetModel.Ev
